@@ -11,6 +11,7 @@
 // Decode(non-canonical).
 // Stream "struct": a struct with MissingFielder whose extra fields come from a
 // map rebuilt in random order.  Stream "nested": maps at several depths.
+// Stream "hist" (hist.go): ordered pairs and triples of struct shapes on ONE Encoder.
 package main
 
 import (
@@ -1414,6 +1415,7 @@ func main() {
 	nStruct := flag.Int("structs", 80, "structs with missing fields (model-compared)")
 	nNested := flag.Int("nested", 150, "nested values")
 	reps := flag.Int("reps", 3, "encodings per built map")
+	nHist := flag.Int("hist", 2, "Encoder history stream: 0 off, 1 every ordered pair of the struct-shape corpus, 2 pairs (bytes and io) and triples (alternating transport), 3 pairs and triples on both transports")
 	cases := flag.String("cases", "/verif/build/c08/cases", "directory for the model case files")
 	flag.Parse()
 	if *bigChild != "" {
@@ -1423,7 +1425,7 @@ func main() {
 		return
 	}
 	r := vh.NewRng(vh.SeedFromEnv())
-	sum := vh.NewSummary("maps: 33 key kinds (float64/float32 maps holding one NaN key, interface{} keys mixing arrays/structs with scalars under json MapKeyAsString / simple EncZeroValuesAsNil, named int/string/int16 keys with Text / Binary / Selfer hooks, string, named string, intN, named int, uintN, uintptr, named uint, float32/64, named float, bool, time, time keys inside one second, time in several zones, struct, array, interface{} with distinct / with shared encodings, named fast-path map) x 5 formats x random options x sizes 1..24 x 3 insertion permutations x reps fresh Encoders x 4 goroutines x bytes/io (fresh io Encoder, the same Encoder after 1-3 Resets with WriterBufferSize 0/16/64/1024, twice in a row on one Encoder); distinct by (key kind, format, size, ties). struct: MissingFielder struct (declared fields always present / all omitempty with 0, 1, several or all present) x extra-field sets rebuilt in random order. structint: a struct with integer keys and MissingFielder extras (canonical = non-canonical after Decode). nested: maps/lists to depth 3 rebuilt in random insertion orders. bigelem: map[int|string|uint32|int64|named int]E with sizeof(E) in {120,127,128,129,136} (canonical fetches values by key). nestedkey: map[*K]string whose keys hold a map with array keys (re-entrant out-of-band encoding). nstruct: map[struct]map[struct]string and map[struct][]byte with 20-60 byte keys, up to 12x12, identical bytes across rebuilds and DeepEqual after Decode")
+	sum := vh.NewSummary("maps: 33 key kinds (float64/float32 maps holding one NaN key, interface{} keys mixing arrays/structs with scalars under json MapKeyAsString / simple EncZeroValuesAsNil, named int/string/int16 keys with Text / Binary / Selfer hooks, string, named string, intN, named int, uintN, uintptr, named uint, float32/64, named float, bool, time, time keys inside one second, time in several zones, struct, array, interface{} with distinct / with shared encodings, named fast-path map) x 5 formats x random options x sizes 1..24 x 3 insertion permutations x reps fresh Encoders x 4 goroutines x bytes/io (fresh io Encoder, the same Encoder after 1-3 Resets with WriterBufferSize 0/16/64/1024, twice in a row on one Encoder); distinct by (key kind, format, size, ties). struct: MissingFielder struct (declared fields always present / all omitempty with 0, 1, several or all present) x extra-field sets rebuilt in random order. structint: a struct with integer keys and MissingFielder extras (canonical = non-canonical after Decode). nested: maps/lists to depth 3 rebuilt in random insertion orders. bigelem: map[int|string|uint32|int64|named int]E with sizeof(E) in {120,127,128,129,136} (canonical fetches values by key). nestedkey: map[*K]string whose keys hold a map with array keys (re-entrant out-of-band encoding). nstruct: map[struct]map[struct]string and map[struct][]byte with 20-60 byte keys, up to 12x12, identical bytes across rebuilds and DeepEqual after Decode. hist (seed-independent): 24 struct shapes (simple, omitempty, toarray, int-keyed, MissingFielder with 0..3 extras / value receiver / struct-valued extra, non-simple structs nested 2-3 levels with trailing fields, wide/narrow scratch classes, through pointer / interface / slice / map, maps and slices of them) in every ordered pair and triple on ONE Encoder (successive Encode with and without ResetBytes / Reset, and inside one []interface{} value) x 5 formats x {-, StructToArray} x bytes/io: each value's bytes equal a fresh Encoder's; distinct by (format, options, sequence), sequences of simple structs only are trivial")
 	cv := vh.NewCases(*cases, "From Coq Require Import List NArith ZArith.\nFrom Verif Require Import C08.Model C08.Corr.\nImport ListNotations.", "case", "mismatches", 60)
 	id := mapsStream(r.Fork(), *nMaps, *reps, cv, sum, 0)
 	id = structStream(r.Fork(), *nStruct, *reps, cv, sum, id)
@@ -1432,6 +1434,7 @@ func main() {
 	nestedStructStream(r.Fork(), *nNStruct, *reps, sum)
 	bigElemParent(1+*nNStruct/40, sum)
 	nestedKeyStream(r.Fork(), 4+*nNStruct/10, *reps, sum)
+	histStream(*nHist, sum)
 	cv.Close()
 	sum.Print()
 }
